@@ -174,6 +174,13 @@ func DecodeString(inp []byte, startIndex int) (str []byte, bytesRead int, err er
 		return nil, 0, ErrTypeMismatch
 	}
 
+	// check the data is in the range.
+	// NOTE: compare sizes instead of computing the end index,
+	// as the addition might overflow for large (untrusted) data sizes
+	if dataSize > len(inp)-dataStartIndex {
+		return nil, 0, ErrIncompleteInput
+	}
+
 	// single character special case
 	if dataSize == 1 && startIndex == dataStartIndex {
 		return []byte{inp[dataStartIndex]}, 1, nil
@@ -215,7 +222,9 @@ func DecodeList(inp []byte, startIndex int) (encodedItems [][]byte, bytesRead in
 		return retList, 1, nil
 	}
 
-	if listDataSize+dataStartIndex > len(inp) {
+	// NOTE: compare sizes instead of computing the end index,
+	// as the addition might overflow for large (untrusted) data sizes
+	if listDataSize > len(inp)-dataStartIndex {
 		return nil, 0, ErrIncompleteInput
 	}
 
@@ -228,10 +237,10 @@ func DecodeList(inp []byte, startIndex int) (encodedItems [][]byte, bytesRead in
 			return nil, 0, err
 		}
 		// collect encoded item
-		itemEndIndex = itemDataStartIndex + itemSize
-		if itemEndIndex > len(inp) {
+		if itemSize > len(inp)-itemDataStartIndex {
 			return nil, 0, ErrIncompleteInput
 		}
+		itemEndIndex = itemDataStartIndex + itemSize
 		retList = append(retList, inp[itemStartIndex:itemEndIndex])
 		dataBytesRead += itemEndIndex - itemStartIndex
 		itemStartIndex = itemEndIndex
